@@ -8,16 +8,23 @@
 //   SOLVE <id> kind=<k> base=<id|-> x0=<def|user> expect=<0 unknown|1 optimum known|2 infeasible|3 unbounded> n=<n>
 //         | Q | c | A | b | G | h | Ar | br | dQ,dA,dG | x0 | x* | u* | v*
 //         = status iters fx kkt eta | x | u | v | rdual | rprim
+//   REDUCE <id> kind=<k> r=<rows> n=<cols> | A | b | P | Q | L | U | rank | ret | Ar | br
+//         program::reduce(A, b) of the library on an equality system, next to Eigen's fullPivLu of [A|b]^T recomputed here with
+//         the same call: P, Q as index lists ((P X) row k = X row P[k]; (X Q) column j = X column Q[j]), L = unit lower
+//         trapezoid (cols+1 x min), U = upper trapezoid (min x rows), rank = dd.rank(), ret = returned flag
 //   FAIL <clause> id=<id> ...   direct property violations (oracle coded here in long double, independent of the Coq model)
 //   DONE solves=<n> converged=<n> ...
 // Usage: c04_program <quick|thorough> [count [chunk]]   (seed = VERIF_SEED, perturbed by the chunk id)
 //        c04_program replay "<the text of a SOLVE line up to (excluding) ' = '>"
+//        c04_program reduce <cols> "<A>" "<b>"     (one REDUCE line for the given equality system)
 #include "common.h"
+#include <Eigen/Dense>
 #include <algorithm>
 #include <iostream>
 #include <map>
 #include <nano/program/solver.h>
 #include <nano/program/util.h>
+#include <nano/tensor/stack.h>
 
 using namespace nano;
 using namespace nano::program;
@@ -520,6 +527,121 @@ prog_t gen_tiny(vh::rng_t& rng)
 }
 
 // ---------------------------------------------------------------------------------------------------
+// program::reduce on an equality system, next to the LU factorisation it is built from (same Eigen call)
+// ---------------------------------------------------------------------------------------------------
+long g_reduce_lines = 0;
+
+std::string sidx(const std::vector<long>& v)
+{
+    if (v.empty()) return "-";
+    std::string s;
+    for (size_t i = 0; i < v.size(); ++i) { if (i) s += ","; s += std::to_string(v[i]); }
+    return s;
+}
+
+void emit_reduce(const long id, const std::string& kind, const dmat& dA, const dvec& db, const int n)
+{
+    const auto A = to_matrix(dA, n);
+    const auto b = to_vector(db);
+    auto Ar = A;
+    auto br = b;
+    const bool ret = ::nano::program::reduce(Ar, br);
+    std::vector<long> pi, qi;
+    std::string sL = "-", sU = "-";
+    long rank = 0;
+    if (A.rows() > 0)
+    {
+        // exactly what ::reduce(matrix_t&) of src/program/util.cpp does with the stacked matrix
+        auto       Ab = ::nano::stack<scalar_t>(A.rows(), A.cols() + 1, A.matrix(), b.vector());
+        const auto dd = Ab.transpose().fullPivLu();
+        rank          = static_cast<long>(dd.rank());
+        const auto& LU = dd.matrixLU();
+        const auto  nn = std::min(Ab.rows(), Ab.cols());
+        const Eigen::MatrixXd L = LU.leftCols(nn).template triangularView<Eigen::UnitLower>().toDenseMatrix();
+        const Eigen::MatrixXd U = LU.topRows(nn).template triangularView<Eigen::Upper>().toDenseMatrix();
+        const auto Pd = dd.permutationP().toDenseMatrix();
+        const auto Qd = dd.permutationQ().toDenseMatrix();
+        pi.assign(static_cast<size_t>(Pd.rows()), -1);
+        qi.assign(static_cast<size_t>(Qd.cols()), -1);
+        for (Eigen::Index k = 0; k < Pd.rows(); ++k)
+            for (Eigen::Index j = 0; j < Pd.cols(); ++j)
+                if (Pd(k, j) != 0) pi[static_cast<size_t>(k)] = static_cast<long>(j); // (P X) row k = X row j
+        for (Eigen::Index i = 0; i < Qd.rows(); ++i)
+            for (Eigen::Index j = 0; j < Qd.cols(); ++j)
+                if (Qd(i, j) != 0) qi[static_cast<size_t>(j)] = static_cast<long>(i); // (X Q) column j = X column i
+        const auto emat = [](const Eigen::MatrixXd& M)
+        {
+            dmat d(static_cast<size_t>(M.rows()), dvec(static_cast<size_t>(M.cols())));
+            for (Eigen::Index i = 0; i < M.rows(); ++i)
+                for (Eigen::Index j = 0; j < M.cols(); ++j) d[static_cast<size_t>(i)][static_cast<size_t>(j)] = M(i, j);
+            return smat(d);
+        };
+        sL = emat(L);
+        sU = emat(U);
+    }
+    ++g_reduce_lines;
+    std::cout << "REDUCE " << id << " kind=" << kind << " r=" << dA.size() << " n=" << n << " | " << smat(dA) << " | " << svec(db) << " | "
+              << sidx(pi) << " | " << sidx(qi) << " | " << sL << " | " << sU << " | " << rank << " | " << (ret ? 1 : 0) << " | "
+              << (Ar.rows() > 0 ? smat(Ar) : std::string("-")) << " | " << svec(br) << "\n";
+}
+
+// [A|b] systems with dependent rows, small integers (everything the library forms from them is exact in doubles where the
+// pivots allow): target rank 0..min(rows, cols), duplicated rows, integer combinations, consistent and inconsistent
+// right-hand sides, zero rows, more rows than columns
+void gen_reduce(vh::rng_t& rng, const long id)
+{
+    const int  n    = static_cast<int>(rng.range(1, 5));
+    const int  r    = chance(rng, 3) ? 0 : static_cast<int>(rng.range(1, 7));
+    const auto N    = static_cast<size_t>(n);
+    const int  rho  = (r == 0 || chance(rng, 8)) ? 0 : static_cast<int>(rng.range(1, std::min(r, n)));
+    const int  mode = static_cast<int>(rng.range(0, 9)); // 0-1 entries in {-1,0,1}, 2-7 in -3..3, 8-9 halves/quarters
+    const bool incons = chance(rng, 35);
+    std::string kind = "rank" + std::to_string(rho);
+    dmat base(static_cast<size_t>(rho), dvec(N, 0.0));
+    for (auto& row : base)
+        for (auto& v : row)
+            v = mode <= 1 ? static_cast<double>(rng.range(-1, 1)) : mode <= 7 ? static_cast<double>(rng.range(-3, 3)) : dy(rng, 6, 4.0);
+    dvec x0(N);
+    for (auto& v : x0) v = static_cast<double>(rng.range(-3, 3));
+    dmat A;
+    dvec b;
+    bool dup = false, comb = false, bad = false;
+    for (int i = 0; i < r; ++i)
+    {
+        dvec row(N, 0.0);
+        if (i < rho) row = base[static_cast<size_t>(i)];
+        else if (rho > 0 && chance(rng, 35))
+        {
+            row = base[static_cast<size_t>(rng.range(0, rho - 1))];
+            dup = true;
+        }
+        else if (rho > 0)
+        {
+            for (int k = 0; k < rho; ++k)
+            {
+                const double w = static_cast<double>(rng.range(-2, 2));
+                for (size_t j = 0; j < N; ++j) row[j] += w * base[static_cast<size_t>(k)][j];
+            }
+            comb = true;
+        }
+        double rhs = static_cast<double>(ldot(row, x0));
+        if (i >= rho && incons && chance(rng, 50)) { rhs += static_cast<double>(rng.range(1, 3)) * (chance(rng, 50) ? 1.0 : -1.0); bad = true; }
+        A.push_back(row);
+        b.push_back(rhs);
+    }
+    for (size_t i = A.size(); i-- > 1;)
+    {
+        const auto j = static_cast<size_t>(rng.range(0, static_cast<int64_t>(i)));
+        std::swap(A[i], A[j]); std::swap(b[i], b[j]);
+    }
+    if (r == 0) kind = "empty";
+    if (dup) kind += "+dup";
+    if (comb) kind += "+comb";
+    if (bad) kind += "+incons";
+    emit_reduce(id, kind, A, b, n);
+}
+
+// ---------------------------------------------------------------------------------------------------
 // one solve: print the SOLVE line, apply the direct oracle
 // ---------------------------------------------------------------------------------------------------
 struct counters_t
@@ -559,6 +681,8 @@ void run_one(const prog_t& P, const long id, counters_t& C)
     const auto dQ = std::max({1e-3, Qm.size() > 0 ? Qm.lpNorm<2>() : 0.0, c.lpNorm<2>()});
     const auto dA = std::max({1e-3, Ar.size() > 0 ? Ar.lpNorm<2>() : 0.0, br.size() > 0 ? br.lpNorm<2>() : 0.0});
     const auto dG = std::max({1e-3, G.size() > 0 ? G.lpNorm<2>() : 0.0, h.size() > 0 ? h.lpNorm<2>() : 0.0});
+
+    if (!P.A.empty() && (P.kind.find("eq") != std::string::npos || id % 8 == 0)) emit_reduce(id, "solve:" + P.kind, P.A, P.b, n);
 
     const auto ptext = program_text(P, id);
     std::cout << ptext << " | " << smat(Ar) << " | " << svec(br) << " | " << vh::hexf(dQ) << "," << vh::hexf(dA) << ","
@@ -744,6 +868,14 @@ int main(int argc, char** argv)
         std::cout << "DONE solves=" << C.solves << " converged=" << C.converged << " fails=" << C.fails << "\n";
         return 0;
     }
+    if (mode == "reduce" && argc > 4)
+    {
+        // c04_program reduce <n> "<A>" "<b>"
+        const int  n = std::atoi(argv[2]);
+        emit_reduce(0, "replay", pmat(argv[3]), pvec(argv[4]), n);
+        std::cout << "DONE solves=0 converged=0 fails=0 reduce_lines=" << g_reduce_lines << "\n";
+        return 0;
+    }
     const long count = argc > 2 ? std::atol(argv[2]) : (mode == "thorough" ? 2000 : 260);
     const long chunk = argc > 3 ? std::atol(argv[3]) : 0;
     // NB: splitmix64 states that differ by a multiple of its increment give shifted copies of the same stream:
@@ -754,6 +886,12 @@ int main(int argc, char** argv)
     rng1.next();
     vh::rng_t  rng(rng1.next() ^ (h0 >> 7));
     long       id = chunk * 1000000L;
+    {
+        // equality systems for program::reduce (own stream, so that the programs below are the same as before)
+        vh::rng_t  rngr(rng1.next() ^ 0x5ED0CEULL);
+        const long nred = std::max<long>(200, count / 2);
+        for (long k = 0; k < nred; ++k) gen_reduce(rngr, 900000000L + chunk * 1000000L + k);
+    }
     for (long k = 0; k < count; ++k)
     {
         const int what = static_cast<int>(rng.range(0, 99));
@@ -772,6 +910,6 @@ int main(int argc, char** argv)
               << " user_x0=" << C.user_x0 << " gap_checked=" << C.gap_checked << " unfeasible=" << C.unfeasible << " unbounded=" << C.unbounded
               << " failed=" << C.failed << " max_iters=" << C.max_iters << " worst_gap_ratio=" << static_cast<double>(C.worst_gap_ratio)
               << " worst_feas_ratio=" << static_cast<double>(C.worst_feas_ratio) << " kinds=" << shist(C.kinds)
-              << " converged_by_kind=" << shist(C.conv_by_kind) << " sizes=" << shist(C.sizes) << " objective=" << shist(C.qkinds) << "\n";
+              << " converged_by_kind=" << shist(C.conv_by_kind) << " sizes=" << shist(C.sizes) << " objective=" << shist(C.qkinds) << " reduce_lines=" << g_reduce_lines << "\n";
     return 0;
 }
